@@ -90,6 +90,13 @@ class FuncObj:
         return "<function %s>" % self.attrs.get("__name__", self.node.name)
 
 
+def _is_generator(func_node):
+    for n in A.walk(func_node):
+        if isinstance(n, (ast.Yield, ast.YieldFrom)):
+            return True
+    return False
+
+
 def call_function(func_node, args, extra=None, kwargs=None):
     """run a plain function (no self) on concrete arguments; extra: __calls__/__values__/__isinstance__ hooks"""
     prm = A.params(func_node)
@@ -114,6 +121,14 @@ def call_function(func_node, args, extra=None, kwargs=None):
         env[n] = _ev(dflt[j], env)
     if kwargs:
         raise Raised("TypeError")
+    if _is_generator(func_node):
+        # a generator is run eagerly and its yields collected (the models only use finite sources)
+        env["__yields__"] = []
+        try:
+            _block(func_node.body, env)
+        except _Ret:
+            pass
+        return list(env["__yields__"])
     try:
         _block(func_node.body, env)
     except _Ret as r:
@@ -138,6 +153,16 @@ def _block(stmts, env):
 
 def _stmt(st, env):
     if isinstance(st, ast.Expr):
+        if isinstance(st.value, ast.Yield):
+            if "__yields__" not in env:
+                raise AnalysisError("miniinterp: yield outside a generator model")
+            env["__yields__"].append(_ev(st.value.value, env) if st.value.value is not None else None)
+            if len(env["__yields__"]) > 100000:
+                raise Raised("<nontermination>")
+            return
+        if isinstance(st.value, ast.YieldFrom):
+            env["__yields__"].extend(list(_ev(st.value.value, env)))
+            return
         if not isinstance(st.value, ast.Constant):
             _ev(st.value, env)
         return
